@@ -563,6 +563,15 @@ pub fn sites(tier: Tier) -> Vec<Site> {
                 }
             }));
     }
+    // ... nor between threads: histories of 2 and 3 conversions spread over two threads
+    {
+        let corpus: Vec<(String, String)> = ["", "plain", "\u{11b}\u{161}", "\u{448}\u{44e} ok", "\u{30a2}\u{30a2}", "^J\u{30a2}^L\u{e9}", "\u{1f600} \u{f600}", "\u{e9}\u{11b}\u{448}", "\u{d55c}\u{ae00}", "\u{4e2d}\u{6587} ^^", "\u{3b1}\u{3b2}^8\u{3b3}", "a^Eb^Cc"].iter().map(|s| (format!("text {s:?}"), s.to_string())).collect();
+        sites.push(crate::crossthread::site("C10", "cross-thread-conversions", "encode + decode of the bytes", corpus, |s: &String| {
+            let e = to_lossy_bytes(s).to_vec();
+            let d = to_lossy_string(&e).to_string();
+            (e, d)
+        }));
+    }
     sites
 }
 
